@@ -1,6 +1,7 @@
 -- Property theorems of engine `conc` (C16, and the leak part of C13); one module per part so that a broken
 -- obligation of one part does not hide the others.
 import Conc.Props.Race
+import Conc.Props.RaceFull
 import Conc.Props.Order
 import Conc.Props.Leak
 import Conc.Props.Placement
